@@ -484,6 +484,25 @@ def standin_groups(tier, seed):
                 back = Group.parse(None, canon)
                 if not (back == ref and sorted(back.psgs) == sorted(ms) and back.csg == csg):
                     viol.append({'id': 'roundtrip-' + canon, 'input': canon, 'observed': [back.csg, back.psgs], 'expected': [csg, list(ms)]})
+    # large multiplicities: repeat counts of two and three digits, counts with a zero digit, a count split over several runs
+    for csg in centres[:2]:
+        for ms in ([('H', 10)], [('H', 12), ('C', 1)], [('C[d]', 101)], [('H', 20), ('Pt', 11)], [('x y', 10), ('C2', 2)]):
+            flat = [nm for nm, k in ms for _ in range(k)]
+            ref = Group(None, csg, flat)
+            canon = ref.name
+            distinct.add((csg, tuple(flat)))
+            texts = [canon, csg + ''.join('(%s)%d' % (nm, k) for nm, k in reversed(ms)), csg + ''.join(('(%s)%d(%s)%d' % (nm, k - 3, nm, 3)) if k > 3 else ('(%s)%d' % (nm, k)) for nm, k in ms)]
+            for t in texts:
+                n += 1
+                try:
+                    p = Group.parse(None, t)
+                    ok = p == ref and hash(p) == hash(ref) and sorted(p.psgs) == sorted(flat) and p.name == canon and ({ref: 1}.get(t if t == canon else canon) == 1)
+                    got = [p.csg, len(p.psgs)]
+                except Exception as e:    # noqa
+                    ok, got = False, 'raised %s' % type(e).__name__
+                if not ok and len(viol) < 14:
+                    viol.append({'id': 'count-' + t[:40], 'input': t, 'observed': got, 'expected': [csg, len(flat)],
+                                 'script': "from pgradd.GroupAdd.Group import Group\np = Group.parse(None, %r)\nprint(p.csg, len(p.psgs), p.name)  # expected %d peripherals, name %r\n" % (t, len(flat), canon)})
     # different multisets must give different groups
     seen = {}
     for csg, ms in distinct:
